@@ -1060,7 +1060,7 @@ func (e *Exec) equal(s *State, t types.Type, x, y Value) *Term {
 		if a.Sym == nil && b.Sym == nil {
 			return Bool(a.C == b.C)
 		}
-		return e.floatCmp(s, token.EQL, a, b)
+		return floatEq(a, b)
 	case PtrV:
 		b, ok := y.(PtrV)
 		if !ok {
@@ -1209,13 +1209,10 @@ func valueEq(x, y Value) *Term {
 		return valueEq(a.V, b.V)
 	case FloatV:
 		b, ok := y.(FloatV)
-		if ok && a.Sym == nil && b.Sym == nil {
-			return Bool(a.C == b.C)
+		if !ok {
+			return False
 		}
-		if ok && a.Sym != nil && b.Sym != nil && a.Sym.Kind == b.Sym.Kind && len(a.Sym.Ops) == 0 && len(b.Sym.Ops) == 0 {
-			return Eq(a.Sym.Int, b.Sym.Int)
-		}
-		return False
+		return floatEq(a, b)
 	}
 	return Bool(identical(x, y))
 }
